@@ -119,6 +119,10 @@ class Grammar(Generic[_NodeT]):
         if code is None:
             read_time = file_io.get_last_modified()
             code = file_io.read()
+            if read_time is None:
+                # The file did not exist a moment ago. The modification time
+                # of the content that was just read is therefore not known.
+                read_time = float('-inf')
         code = python_bytes_to_unicode(code)
 
         lines = split_lines(code, keepends=True)
